@@ -1,5 +1,6 @@
 import PyTrie.Model.HexWorld
 import PyTrie.Model.HexTrav
+import PyTrie.Model.HexDb
 /-! Line-protocol front end for the hexary-trie model (commands `hx.*`). One reply line per
     command. Byte strings are lower-case hex (`-` = empty), nibble paths one hex digit per nibble
     (`-` = empty), the batch trie is addressed as `b`, other tries by number. -/
@@ -195,6 +196,33 @@ def step (st : St) (cmd : String) (args : List String) : St × String :=
     match parseTarget tg with
     | some tg =>
       (st, joinOr ((preorder (w.trieOf tg).tree []).map fun e => s!"{pathStr e.1}={fmtAnn (annotate e.2)}") ";")
+    | none => bad
+  -- Layer D: read a key at a root hash through the world's database of encoded nodes
+  | "getat", [r, k] =>
+    match ofHex r, ofHex k with
+    | some r, some k =>
+      (st, match HexD.getD keccak w.base r (nibs k) with
+        | .ok v => s!"v {toHex v}"
+        | .error (.missing h used) => s!"exn MissingTrieNode {toHex h} {toHex r} {toHex k} {pathStr used}"
+        | .error .invalid => "exn Invalid"
+        | .error .fuel => "exn Fuel")
+    | _, _ => bad
+  -- get_from_proof(root, key, nodes); nodes = comma separated rlp encodings (`-` = none)
+  | "verify", [r, k, ns] =>
+    match ofHex r, ofHex k with
+    | some r, some k =>
+      let toks := if ns = "-" then [] else ns.splitOn ","
+      match toks.mapM (fun t => (ofHex t).bind HexD.rlpDecode) with
+      | none => bad
+      | some nodes =>
+        (st, match HexD.getFromProof keccak r k nodes with
+          | .value v => s!"v {toHex v}"
+          | .badProof => "exn BadTrieProof"
+          | .other => "exn Other")
+    | _, _ => bad
+  | "rlpdec", [b] =>
+    match ofHex b with
+    | some b => (st, match HexD.rlpDecode b with | some it => toHex (rlp it) | none => "none")
     | none => bad
   | _, _ => bad
 
